@@ -73,6 +73,7 @@ func (c Cfg) String() string {
 type Res struct {
 	States, Transitions, Signs, Jumps, Refusals, Events, Verifies, RefCompares int64
 	NontrivialJumps                                                            int64  // SetIndex with j > idx+1 that succeeded
+	AuthNotReadyInState                                                        int64  // states whose stored auth path was not (yet) the one of the next index (diagnostic)
 	CappedAt                                                                   uint64 // Lean: first index not covered because the time budget ran out (0 = complete)
 	TraceDigest                                                                string
 	Trace                                                                      []uint64 // only when KeepTrace
@@ -404,12 +405,10 @@ func section(off, h int) string {
 func (e *explorer) checkState(k *xmss.XMSS, ops []Op, full bool) {
 	idx := k.GetIndex()
 	if uint64(idx) < e.numEl && (e.cfg.Symbolic || e.ref != nil) {
+		// Diagnostic only: WHEN the object prepares the next authentication path is an implementation choice; the
+		// property speaks about signatures, and every explored state is followed by a Sign whose signature is checked.
 		if got, exp := k.VerifAuth(), e.expectedAuth(idx); !bytes.Equal(got, exp) {
-			t := 0
-			for ; t < e.cfg.H && bytes.Equal(got[32*t:32*t+32], exp[32*t:32*t+32]); t++ {
-			}
-			e.fail("C01", fmt.Sprintf("wrong-authentication-path-in-state level=%d", t), ops, map[string]any{"index": idx, "level": t,
-				"expected": hex.EncodeToString(exp[32*t : 32*t+32]), "observed": hex.EncodeToString(got[32*t : 32*t+32])})
+			e.res.AuthNotReadyInState++
 		}
 	}
 	if len(xmss.VerifDiag) > 0 {
@@ -702,6 +701,11 @@ func Chain(c Cfg, maxDist uint64, everyStateCheap bool, keepTrace bool, capIdx u
 					var kk [16]byte
 					copy(kk[:], d[:16])
 					lands = append(lands, landed{j, kk, jops})
+					// the signature produced right after the jump is checked like any other (C01)
+					sop := Op{Kind: "sign1"}
+					e.prevSig = nil
+					e.step(k2, sop, append(append([]Op(nil), jops...), sop))
+					e.prevSig = nil
 				}
 			}
 		}
